@@ -70,6 +70,15 @@ pub struct BasicOpts {
     pub clean_budget: Ns,
     /// time used to size workloads so that they are feasible under tiny windows
     pub plan_time: Ns,
+    /// probability x/1000 of pad_to_mtu on a side
+    pub pad_rate: u32,
+    /// probability x/1000 of the harness congestion controller on a side
+    pub harness_cc_rate: u32,
+    /// directed loss among the first K datagrams on the wire (0 = off)
+    pub directed_k: u32,
+    pub directed_max: u32,
+    /// probability x/1000 that keep-alive is configured on a side
+    pub keepalive_rate: u32,
 }
 
 impl Default for BasicOpts {
@@ -103,6 +112,11 @@ impl Default for BasicOpts {
             cid_lifetime_ms: None,
             clean_budget: 3 * 3600 * SEC,
             plan_time: 120 * SEC,
+            pad_rate: 0,
+            harness_cc_rate: 0,
+            directed_k: 0,
+            directed_max: 2,
+            keepalive_rate: 0,
         }
     }
 }
@@ -146,6 +160,24 @@ impl Basic {
         if opts.idle_off {
             sk.idle_ms = None;
             ck.idle_ms = None;
+        }
+        for k in [&mut sk, &mut ck] {
+            if w.ch.chance("basic.pad_to_mtu", opts.pad_rate, 1000) {
+                k.pad_to_mtu = true;
+            }
+            if w.ch.chance("basic.harness_cc", opts.harness_cc_rate, 1000) {
+                k.harness_cc = Some((*w.ch.pick("basic.harness_cc.base", &[12_000u64, 2400, 3000, 5000, 100_000, 10_000_000]), w.ch.chance("basic.harness_cc.osc", 1, 2)));
+            }
+            if w.ch.chance("basic.keepalive", opts.keepalive_rate, 1000) {
+                k.keep_alive_ms = Some(*w.ch.pick("basic.keepalive_ms", &[1000u64, 10, 100, 5000]));
+            }
+        }
+        if opts.directed_k > 0 {
+            let n = 1 + w.ch.choose("basic.directed_n", opts.directed_max);
+            for _ in 0..n {
+                let o = w.ch.choose("basic.directed_ord", opts.directed_k);
+                w.net.drop_ordinals.insert(o);
+            }
         }
         // server endpoint
         // zero-length CIDs route by address tuple: only usable when no two connections share one
